@@ -527,7 +527,7 @@ func TestVerifToFileChild(t *testing.T) {
 	// an error = exit (0, committed F47); probed once by the parent on the real updateFile() (vfE8ProbeSealReadWarns, env)
 	say(fmt.Sprintf("tf conf %d %d %d %d %d %d %d %d %d %d %d", b(sc.GZIP), sc.RotateSize, sc.RotateInterval, b(sc.WorkDir),
 		b(sc.SkipEmpty), sc.MaxInFlight, b(hasRev), b(vfE8ProbeCloseClears()), b(vfE8ProbeOneWrite()), b(vfE8ProbeSealsTail()),
-		b(vfE8ProbeSealReadWarns() == 1)))
+		b(vfE8ProbeSealReadWarns() != 0)))
 	ans("ok")
 	start := time.Now()
 	for _, p := range sc.Pre {
